@@ -68,6 +68,10 @@ struct World<'a> {
     prop: String,
     /// puts admitted without eviction although indexed + unacknowledged writes had reached capacity
     burst_admissions: u64,
+    /// value written by each parked write task (lets same-key tasks run in any order in the crash sim)
+    gate_val: HashMap<u64, u32>,
+    /// delete tasks spawned by a put of the very key being written although nothing had to be evicted
+    spurious_deletes: BTreeSet<u64>,
 }
 
 fn record_kind(kind: usize) -> RecordKind {
@@ -146,6 +150,8 @@ impl<'a> World<'a> {
             dists,
             prop: plan.property.clone(),
             burst_admissions: 0,
+            gate_val: HashMap::new(),
+            spurious_deletes: BTreeSet::new(),
         }
     }
 
@@ -253,10 +259,13 @@ impl<'a> World<'a> {
         let mut seen_metrics = false;
         let allow_flush_reorder = self.prop == "C10" && self.plan.mode != "threshold";
         let mut out = vec![];
+        // C02 quantifies over every subset of background tasks that had run at the crash: same-key tasks
+        // may run in any order there (C01 explicitly fixes the order of one key's tasks)
+        let any_order = self.prop == "C02";
         for g in hooks::gates_pending() {
             match self.gate_owner.get(&g.id).copied().unwrap_or(Owner::Other) {
                 Owner::Key(i) => {
-                    if seen_keys.insert(i) {
+                    if seen_keys.insert(i) || any_order {
                         out.push(g);
                     }
                 }
@@ -350,7 +359,15 @@ impl<'a> World<'a> {
         let mut torn_target: Option<(usize, u32)> = None;
         match (g.site, owner) {
             ("store.write", Owner::Key(i)) => {
-                let val = self.keys[i].pending_writes.pop_front();
+                let val = match self.gate_val.remove(&g.id) {
+                    Some(v) => {
+                        if let Some(pos) = self.keys[i].pending_writes.iter().position(|x| *x == v) {
+                            self.keys[i].pending_writes.remove(pos);
+                        }
+                        Some(v)
+                    }
+                    None => self.keys[i].pending_writes.pop_front(),
+                };
                 match val {
                     Some(v) => {
                         if self.keys[i].file == FileState::Blocked {
@@ -370,6 +387,12 @@ impl<'a> World<'a> {
                             Some(format!("write gate for key {i} without a modelled pending write"));
                     }
                 }
+            }
+            ("store.delete", Owner::Key(i)) if self.spurious_deletes.remove(&g.id) => {
+                // nobody asked for this key to be removed: the durable model is NOT updated, so a
+                // completed write that this stale task unlinked shows up at the next crash probe
+                self.keys[i].pending_deletes = self.keys[i].pending_deletes.saturating_sub(1);
+                self.rep.probe("unrequested_delete_task_ran");
             }
             ("store.delete", Owner::Key(i)) => {
                 self.keys[i].pending_deletes = self.keys[i].pending_deletes.saturating_sub(1);
@@ -554,6 +577,9 @@ impl<'a> World<'a> {
 
     /// S2: at quiescence the store equals the sequential model of the foreground operations.
     fn check_quiescent(&mut self, ctx: &str) {
+        if self.prop == "C02" {
+            return;
+        }
         let listed = self.list();
         let files: BTreeSet<String> = std::fs::read_dir(self.store_dir())
             .map(|rd| {
@@ -818,6 +844,8 @@ impl<'a> World<'a> {
             self.gate_owner.remove(&g.id);
         }
         self.flush_counts.clear();
+        self.gate_val.clear();
+        self.spurious_deletes.clear();
         self.live = None;
         for i in 0..self.keys.len() {
             let k = &mut self.keys[i];
@@ -993,6 +1021,17 @@ impl<'a> World<'a> {
                 _ => None,
             })
             .collect();
+        for g in &fresh {
+            if g.site == "store.write" && self.gate_owner.get(&g.id) == Some(&Owner::Key(key)) {
+                self.gate_val.insert(g.id, val);
+            }
+            if g.site == "store.delete" && self.gate_owner.get(&g.id) == Some(&Owner::Key(key)) && !at_capacity {
+                // a put below capacity has nothing to evict, least of all the record it is writing
+                self.spurious_deletes.insert(g.id);
+                self.rep.probe("put_scheduled_delete_of_its_own_file");
+            }
+        }
+        let evicted: Vec<usize> = evicted.into_iter().filter(|e| !(*e == key && !at_capacity)).collect();
         self.note_store_gates(&fresh);
         if !quiet {
             self.rep.log(format!(
@@ -1263,7 +1302,7 @@ impl<'a> World<'a> {
                         if let Some(Owner::Key(i)) = self.gate_owner.get(&g.id).copied() {
                             if self.keys[i].file != FileState::Blocked {
                                 // run the write, then keep only a prefix of what it wrote
-                                let val = self.keys[i].pending_writes.front().copied();
+                                let val = self.gate_val.get(&g.id).copied().or(self.keys[i].pending_writes.front().copied());
                                 hooks::gate_open(g.id);
                                 settle().await;
                                 let _ = self.absorb(Owner::Key(i));
